@@ -50,9 +50,6 @@ package pppoe
 //@ type Session
 //@   owns mu: State EstablishedAt LastActivity LCPIdentifier
 
-//@ type SessionManager
-//@   owns mu: sessions macToSession nextID
-
 //@ func (s *Session) SetState
 //@   requires (state == StateIPCPNegotiation || state == StateEstablished) ==> s.Authenticated
 //@   modifies s.State, s.EstablishedAt, s.LastActivity, s.LCPIdentifier
@@ -72,14 +69,6 @@ package pppoe
 
 //@ func (s *Session) AddBytesIn
 //@   modifies s.BytesIn, s.PacketsIn
-
-//@ func (m *SessionManager) GetSession
-//@   modifies m.sessions, m.macToSession, m.nextID
-//@   sets lastSession = result
-
-//@ func (m *SessionManager) RemoveSession
-//@   modifies m.sessions, m.macToSession, m.nextID
-//@   sets removedID = id
 
 //@ iface rawSocket.send(iface, dstMAC, etherType, data)
 //@   modifies nothing
@@ -153,7 +142,7 @@ package pppoe
 //@   ghost lastSession *Session = nil
 //@   ghost removedID mathint = 0 - 1
 //@   modifies *
-//@   ensures lastSession != nil && !old(sameBytes(clientMAC, lastSession.ClientMAC)) ==> removedID == 0 - 1
+//@   ensures removedID != 0 - 1 ==> lastSession != nil && lastSession.ID == removedID && old(sameBytes(clientMAC, lastSession.ClientMAC))
 
 // ---- lcp.go: LCP option-negotiation automaton (C11) ----
 //
@@ -351,3 +340,81 @@ package pppoe
 //@   modifies nothing
 //@   ensures err == nil ==> result != nil && fresh(result) && fresh(result.ClientMAC) && sameBytes(result.ClientMAC, clientMAC)
 //@   ensures err == nil ==> result.ID == id && !result.Authenticated && result.State == StateDiscovery && result.ClientIP == nil
+//@   ensures err == nil ==> macstr(result.ClientMAC) == macstr(clientMAC)
+//@   ensures err != nil ==> result == nil
+
+// ---- session.go: SessionManager (C20) ----
+//
+// Abstract view: sess = sessions (PPPoE session id -> *Session), idx =
+// macToSession (client MAC string -> session id). C20 for this structure:
+// a session id in use identifies exactly one session (ids: the session stored
+// under id carries that id; id 0 is reserved by RFC 2516 and never in use),
+// and the MAC index is the inverse of "client MAC of session" (fwd + rev:
+// GetSessionByMAC(mac of s) returns s, and every index entry leads to a live
+// session with that MAC). macstr(h) is net.HardwareAddr(h).String().
+// The per-session mutex protects only the mutable protocol state; ID and
+// ClientMAC are immutable after NewSession.
+
+//@ type SessionManager
+//@   owns mu: sessions macToSession nextID
+//@   inv nonnil: self.sessions != nil && self.macToSession != nil
+//@   inv ids: forall i uint16 :: i in self.sessions ==> self.sessions[i] != nil && self.sessions[i].ID == i && i != 0
+//@   inv fwd: forall i uint16 :: i in self.sessions ==> macstr(self.sessions[i].ClientMAC) in self.macToSession && self.macToSession[macstr(self.sessions[i].ClientMAC)] == i
+//@   inv rev: forall k string :: k in self.macToSession ==> self.macToSession[k] in self.sessions && macstr(self.sessions[self.macToSession[k]].ClientMAC) == k
+
+//@ func NewSessionManager
+//@   modifies nothing
+//@   ensures result != nil && fresh(result) && result.inv && card(result.sessions) == 0 && card(result.macToSession) == 0
+
+// CreateSession: on success exactly one new (id -> session) entry with a
+// previously unused, non-zero id and one index entry for the client MAC.
+//@ func (m *SessionManager) CreateSession
+//@   ensures err == nil ==> result != nil && fresh(result) && result.ID != 0 && sameBytes(result.ClientMAC, clientMAC)
+//@   ensures err == nil ==> forall i uint16 :: i == result.ID ==> !locked(i in m.sessions) && i in m.sessions && m.sessions[i] == result
+//@   ensures err == nil ==> forall i uint16 :: i != result.ID ==> (i in m.sessions) == locked(i in m.sessions) && m.sessions[i] == locked(m.sessions[i])
+//@   ensures err == nil ==> dom(m.macToSession) == locked(dom(m.macToSession))[macstr(clientMAC) := true] && vals(m.macToSession) == locked(vals(m.macToSession))[macstr(clientMAC) := result.ID]
+//@   ensures err != nil ==> result == nil && dom(m.sessions) == locked(dom(m.sessions)) && vals(m.sessions) == locked(vals(m.sessions)) && dom(m.macToSession) == locked(dom(m.macToSession)) && vals(m.macToSession) == locked(vals(m.macToSession))
+
+//@ loop SessionManager.CreateSession#1
+//@   invariant m.ids
+//@   invariant m.fwd
+//@   invariant m.rev
+//@   invariant m.sessions == locked(m.sessions) && m.macToSession == locked(m.macToSession)
+//@   invariant dom(m.sessions) == locked(dom(m.sessions)) && vals(m.sessions) == locked(vals(m.sessions)) && dom(m.macToSession) == locked(dom(m.macToSession)) && vals(m.macToSession) == locked(vals(m.macToSession))
+
+//@ func (m *SessionManager) GetSession
+//@   modifies m.sessions, m.macToSession, m.nextID
+//@   sets lastSession = result
+//@   ensures locked(id in m.sessions) ==> result == locked(m.sessions[id]) && result != nil && result.ID == id
+//@   ensures !locked(id in m.sessions) ==> result == nil
+//@   ensures dom(m.sessions) == locked(dom(m.sessions)) && vals(m.sessions) == locked(vals(m.sessions)) && dom(m.macToSession) == locked(dom(m.macToSession)) && vals(m.macToSession) == locked(vals(m.macToSession))
+
+//@ func (m *SessionManager) GetSessionByMAC
+//@   modifies m.sessions, m.macToSession, m.nextID
+//@   sets lastSession = result
+//@   ensures locked(macstr(mac) in m.macToSession) ==> result != nil && result == locked(m.sessions[m.macToSession[macstr(mac)]]) && macstr(result.ClientMAC) == macstr(mac)
+//@   ensures !locked(macstr(mac) in m.macToSession) ==> result == nil
+//@   ensures dom(m.sessions) == locked(dom(m.sessions)) && vals(m.sessions) == locked(vals(m.sessions)) && dom(m.macToSession) == locked(dom(m.macToSession)) && vals(m.macToSession) == locked(vals(m.macToSession))
+
+// RemoveSession: the id and the index entry of its MAC disappear together; every other mapping is untouched.
+//@ func (m *SessionManager) RemoveSession
+//@   modifies m.sessions, m.macToSession, m.nextID
+//@   sets removedID = id
+//@   ensures dom(m.sessions) == locked(dom(m.sessions))[id := false]
+//@   ensures forall i uint16 :: i in m.sessions ==> m.sessions[i] == locked(m.sessions[i])
+//@   ensures !locked(id in m.sessions) ==> dom(m.macToSession) == locked(dom(m.macToSession))
+//@   ensures locked(id in m.sessions) ==> dom(m.macToSession) == locked(dom(m.macToSession))[locked(macstr(m.sessions[id].ClientMAC)) := false]
+//@   ensures forall k string :: k in m.macToSession ==> m.macToSession[k] == locked(m.macToSession[k])
+
+// CleanupExpired: only removes; what remains is unchanged (and the lock invariants hold again).
+//@ func (m *SessionManager) CleanupExpired
+//@   ensures forall i uint16 :: i in m.sessions ==> locked(i in m.sessions) && m.sessions[i] == locked(m.sessions[i])
+//@   ensures forall k string :: k in m.macToSession ==> locked(k in m.macToSession) && m.macToSession[k] == locked(m.macToSession[k])
+
+//@ loop SessionManager.CleanupExpired#1
+//@   invariant m.sessions == locked(m.sessions) && m.macToSession == locked(m.macToSession) && m.nonnil
+//@   invariant m.ids
+//@   invariant m.fwd
+//@   invariant m.rev
+//@   invariant forall i uint16 :: i in m.sessions ==> locked(i in m.sessions) && m.sessions[i] == locked(m.sessions[i])
+//@   invariant forall k string :: k in m.macToSession ==> locked(k in m.macToSession) && m.macToSession[k] == locked(m.macToSession[k])
